@@ -39,10 +39,10 @@ def source(kinds, quad=False, offset=True, int_labels=False, max_raw_len=None, n
     kinds = list(kinds)
     head = st.tuples(st.sampled_from(kinds), st.integers(0, 63), st.integers(n_min, 6),
                      st.integers(0, len(COEF_CLASSES) - 1), st.booleans(),
-                     st.sampled_from([True, True, True, False]), st.sampled_from(["iadd", "dict"]))
+                     st.sampled_from([True, True, True, False]), st.sampled_from(["iadd", "dict"]), gen.CTYPE)
 
     def body(h):
-        kind, pi, n, ci, repeats, anchored, ctor = h
+        kind, pi, n, ci, repeats, anchored, ctor, ctype = h
         pools = gen.INT_POOLS if (gen.is_matrix(kind) or int_labels) else gen.LABEL_POOLS + gen.INT_POOLS[:2]
         pi %= len(pools)
         labels = list(pools[pi][:n])
@@ -50,5 +50,6 @@ def source(kinds, quad=False, offset=True, int_labels=False, max_raw_len=None, n
         terms = _CACHE.get(key)
         if terms is None:
             terms = _CACHE[key] = _terms(kind, labels, ci, repeats, anchored, quad, offset, max_raw_len)
-        return terms.map(lambda ts: {"kind": kind, "labels": list(labels), "ctor": ctor, "terms": ts})
+        # "ctype": the number type the coefficients are handed to the library in (gen.wrap_number); same values
+        return terms.map(lambda ts: {"kind": kind, "labels": list(labels), "ctor": ctor, "terms": ts, "ctype": ctype})
     return head.flatmap(body)
